@@ -191,6 +191,7 @@ func runExec(r *hlib.Run, tc *toolchain) {
 		j.src = b.String()
 		jobs[i] = j
 	}
+	jobs = append([]*pkgJob{batteryJobs()}, jobs...)
 	t1 := time.Now()
 	// phase 2: translate, compile, run (parallel)
 	var wg sync.WaitGroup
@@ -225,6 +226,7 @@ func runExec(r *hlib.Run, tc *toolchain) {
 
 	// phase 3: ops + oracle (sequential, in order)
 	ncalls := 0
+	var pend []*pendingCase
 	for _, j := range jobs {
 		if len(j.progs) == 0 {
 			continue
@@ -267,25 +269,11 @@ func runExec(r *hlib.Run, tc *toolchain) {
 				}
 				return "abort"
 			}
-			r.Op("case "+j.name+"."+p.sname+" "+j.sexprs[i], line(cl, 0))
-			prev := ""
+			ops := []string{"case " + j.name + "." + p.sname + " " + j.sexprs[i]}
+			outs := []string{line(cl, 0)}
 			for k, c := range h {
-				out := line(cl, k+1)
-				r.Op(callLine(c), out)
-				ncalls++
-				if i := strings.Index(out, "|"); i > 0 {
-					if !strings.HasPrefix(out, "r 0 ") && !strings.HasPrefix(out, "r - ") {
-						r.Count("trace:nonzero-return")
-					}
-					if out[i:] != prev && k > 0 {
-						r.Count("trace:state-changed")
-					}
-					prev = out[i:]
-				}
-				r.Count("trace:calls")
-			}
-			if len(h) > 0 {
-				r.Sample(callLine(h[len(h)-1]) + " -> " + line(cl, len(h)))
+				ops = append(ops, callLine(c))
+				outs = append(outs, line(cl, k+1))
 			}
 			replay := "// package " + j.name + " struct " + p.sname + "\n" + p.src + "\n// history\n" + histText(h)
 			if cl.failed || len(cl.lines) != len(h)+1 {
@@ -296,12 +284,114 @@ func runExec(r *hlib.Run, tc *toolchain) {
 				r.Fail("cc-diff", "gcc -O2 and clang -O1 builds of the same generated C print different traces:\nclang: "+
 					strings.Join(cl.lines, " / ")+"\ngcc:   "+strings.Join(gc.lines, " / ")+"\n"+firstLines(gc.stderr, 4), replay)
 			}
-			r.Nontrivial(p.src + histText(h))
-			for k, v := range p.nOps {
-				r.CountN(k, v)
-			}
-			r.Count("programs")
+			pend = append(pend, &pendingCase{ops: ops, outs: outs, replay: replay, prog: p, hist: h, sanFailed: cl.failed || len(cl.lines) != len(h)+1})
 		}
 	}
+	// phase 4: the reference semantics (Lean interpreter) on the same cases; a
+	// case the reference marks `undef` is one the checker should not have
+	// accepted (a C01 matter): discarded and counted.
+	ref := runReference(r, pend)
+	for ci, pc := range pend {
+		undef := false
+		diff := -1
+		if ref != nil {
+			for k := range pc.ops {
+				m := ref[ci][k]
+				if strings.HasPrefix(m, "undef:") || strings.HasPrefix(m, "unsupported:") {
+					undef = true
+					r.Note("reference says " + m + " on " + pc.ops[0][:strings.Index(pc.ops[0], " (")])
+					break
+				}
+				if m != pc.outs[k] && diff < 0 {
+					diff = k
+				}
+			}
+		}
+		if undef {
+			r.Count("discard:reference-undef")
+			continue
+		}
+		prev := ""
+		for k := range pc.ops {
+			r.Op(pc.ops[k], pc.outs[k])
+			if k == 0 {
+				continue
+			}
+			out := pc.outs[k]
+			ncalls++
+			if i := strings.Index(out, "|"); i > 0 {
+				if !strings.HasPrefix(out, "r 0 ") && !strings.HasPrefix(out, "r - ") {
+					r.Count("trace:nonzero-return")
+				}
+				if out[i:] != prev && k > 1 {
+					r.Count("trace:state-changed")
+				}
+				prev = out[i:]
+			}
+			r.Count("trace:calls")
+		}
+		if len(pc.ops) > 1 {
+			r.Sample(pc.ops[len(pc.ops)-1] + " -> " + pc.outs[len(pc.outs)-1])
+		}
+		if diff >= 0 && !pc.sanFailed {
+			key := "ref-diff"
+			if pc.prog.failKey != "" {
+				key = pc.prog.failKey
+			}
+			r.Fail(key, "the compiled C and the reference semantics of the Wuffs source disagree at `"+pc.ops[diff]+
+				"`:\n  C (clang build): "+pc.outs[diff]+"\n  reference:       "+ref[ci][diff], pc.replay)
+		}
+		r.Nontrivial(pc.prog.src + histText(pc.hist))
+		for k, v := range pc.prog.nOps {
+			r.CountN(k, v)
+		}
+		r.Count("programs")
+	}
 	r.Extra("oracle_cases", ncalls)
+}
+
+type pendingCase struct {
+	ops, outs []string
+	replay    string
+	prog      *program
+	hist      []call
+	sanFailed bool
+}
+
+// runReference pipes the cases through the compiled Lean driver (built by
+// ./check before the harness runs). Returns nil when it is not available.
+func runReference(r *hlib.Run, pend []*pendingCase) [][]string {
+	bin := os.Getenv("VERIF_C04_MODEL")
+	if bin == "" {
+		bin = "lean/.lake/build/bin/wv_c04"
+	}
+	if _, err := os.Stat(bin); err != nil {
+		r.Note("reference driver " + bin + " not found: traces are compared by ./check only")
+		return nil
+	}
+	var in strings.Builder
+	n := 0
+	for _, pc := range pend {
+		for _, o := range pc.ops {
+			in.WriteString(o + "\n")
+			n++
+		}
+	}
+	o, e, err := hlib.RunCmd(20*time.Minute, "", nil, []byte(in.String()), bin)
+	if err != nil {
+		r.Note("reference driver failed: " + err.Error() + " " + firstLines(string(e), 2))
+		return nil
+	}
+	lines := strings.Split(strings.TrimRight(string(o), "\n"), "\n")
+	if len(lines) != n {
+		r.Note(fmt.Sprintf("reference driver printed %d lines for %d ops", len(lines), n))
+		return nil
+	}
+	out := make([][]string, len(pend))
+	k := 0
+	for i, pc := range pend {
+		out[i] = lines[k : k+len(pc.ops)]
+		k += len(pc.ops)
+	}
+	return out
 }
